@@ -537,7 +537,7 @@ func c19(c *Ctx) {
 			continue
 		}
 		rng := c.Rng(i)
-		big := i%6 == 5 // >= 1000 vectors: IVF, so Train / SetDirectMap run
+		big := i%6 >= 4 // >= 1000 vectors: IVF, so Train / SetDirectMap run (i%6 == 4: build, 5: merge)
 		mergeCase := i%2 == 1
 		var bs []*model.Batch
 		nb := 1
